@@ -221,9 +221,14 @@ Section Gen.
           end
     end.
 
+  (* _helper._escape_comment_text / _escape_string_content: the replacement chains are read from the source *)
+  Definition escape_comment_text (s : str) : str := replace_chain t_comment_escapes s.
+  Definition escape_string_content (s : str) : str := replace_chain t_string_escapes s.
+  Definition quoted (s : str) : str := """"%char :: s ++ [""""%char].
+
   Definition render_lit (l : lit) : str :=
     match l with
-    | LStr s => """"%char :: s ++ [""""%char]
+    | LStr s => quoted (escape_string_content s)
     | LBool true => K"true" | LBool false => K"false"
     | LNone => K"null"
     | LInt z => Z_dec z
@@ -431,7 +436,8 @@ Section Gen.
   Definition sds_docstring_description (description indent : str) : str :=
     match description with
     | [] => []
-    | _ => indent ++ K"/**" ++ NL ++ indent ++ K" * " ++ docstring_description_part description indent ++ indent ++ K" */" ++ NL
+    | _ => indent ++ K"/**" ++ NL ++ indent ++ K" * " ++ escape_comment_text (docstring_description_part description indent)
+           ++ indent ++ K" */" ++ NL
     end.
 
   Definition result_name_at (k : nat) : str := t_result_prefix ++ nat_dec (S (k mod 999)).
@@ -486,16 +492,28 @@ Section Gen.
     let full4 := full3 ++ join (indent ++ K" *" ++ NL) exs in
     match full4 with
     | [] => []
-    | _ => indent ++ K"/**" ++ NL ++ full4 ++ indent ++ K" */" ++ NL
+    | _ => indent ++ K"/**" ++ NL ++ escape_comment_text full4 ++ indent ++ K" */" ++ NL
     end.
 
   (* ---------------- parameters, results ---------------- *)
+  (* a default of the form "..." is re-quoted with its content escaped; other strings are copied *)
+  Definition requote_default (s : str) : str :=
+    match s with
+    | q :: r =>
+      match rev r with
+      | q' :: mid_rev => if Ascii.eqb q """"%char && Ascii.eqb q' """"%char then quoted (escape_string_content (rev mid_rev)) else s
+      | [] => s
+      end
+    | [] => s
+    end.
+
   Definition render_default (p : param) : M str :=
     match p_default p with
     | DStr s =>
+      let plain := ret (requote_default s) in
       match p_assigned p with
-      | POSITIONAL_VARARG => if str_eqb s (K"()") then ret (K"[]") else ret s
-      | _ => ret s
+      | POSITIONAL_VARARG => if str_eqb s (K"()") then ret (K"[]") else plain
+      | _ => plain
       end
     | DBool b => ret (if b then K"true" else K"false")
     | DNone => ret (K"null")
